@@ -28,6 +28,7 @@ RULE = ("wmom: arrays of size 1..300 (1-d) and N x d, d<=4 (floats to 1e6 of bot
         "Non-trivial: unequal weights with n>=3; a clip that removes >=1 point and iterates >=2 times; a query "
         "outside the table; (cov/cor: n>=2 with unequal diagonal). Distinct = distinct case JSON."
         " Also: array inputs as strided / negative-stride / record-field / byte-swapped views; whole data sets in u1/u8/i2 with an integer mean; per-column inputmean; inputmean through get_stats; wmedian on 1e3..1e4 elements with exact half-weight ties; clumped data for sigma_clip; interplin tables at scales 1e-12..1e9 and re-interpolated after the table was changed in place; integer / float32 covariance matrices.")
+RULE += (" " + 'Also (covcor): after a rejected cov2cor call, wmom and sigma_clip on inputs whose arithmetic underflows must still return their defined values.')
 ASSUMPTIONS = [
     "finite data; weights >= 0 with positive total (per column for N x d weights)",
     "tolerance 1e-12 relative to the data scale max|x| (+|inputmean|) for wmean / calcerr error / deviation "
